@@ -212,6 +212,20 @@ func ParseHeader(data []byte) (Header, error) {
 	return Header, nil
 }
 
+// registerInfoString reads a RegisterInfo field of a 3rd party agent: services written in
+// other languages send numbers as numbers (SleepDelay was always accepted both ways)
+func registerInfoString(val any) string {
+	switch v := val.(type) {
+	case string:
+		return v
+	case float64:
+		return strconv.FormatFloat(v, 'f', -1, 64)
+	case bool:
+		return strconv.FormatBool(v)
+	}
+	return ""
+}
+
 func RegisterInfoToInstance(Header Header, RegisterInfo map[string]any) *Agent {
 	var (
 		agent = &Agent{
@@ -227,35 +241,35 @@ func RegisterInfoToInstance(Header Header, RegisterInfo map[string]any) *Agent {
 	agent.Info.MagicValue = Header.MagicValue
 
 	if val, ok := RegisterInfo["Hostname"]; ok {
-		agent.Info.Hostname = val.(string)
+		agent.Info.Hostname = registerInfoString(val)
 	}
 
 	if val, ok := RegisterInfo["Username"]; ok {
-		agent.Info.Username = val.(string)
+		agent.Info.Username = registerInfoString(val)
 	}
 
 	if val, ok := RegisterInfo["Domain"]; ok {
-		agent.Info.DomainName = val.(string)
+		agent.Info.DomainName = registerInfoString(val)
 	}
 
 	if val, ok := RegisterInfo["InternalIP"]; ok {
-		agent.Info.InternalIP = val.(string)
+		agent.Info.InternalIP = registerInfoString(val)
 	}
 
 	if val, ok := RegisterInfo["Process Path"]; ok {
-		agent.Info.ProcessPath = val.(string)
+		agent.Info.ProcessPath = registerInfoString(val)
 	}
 
 	if val, ok := RegisterInfo["Process Name"]; ok {
-		agent.Info.ProcessName = val.(string)
+		agent.Info.ProcessName = registerInfoString(val)
 	}
 
 	if val, ok := RegisterInfo["Process Arch"]; ok {
-		agent.Info.ProcessArch = val.(string)
+		agent.Info.ProcessArch = registerInfoString(val)
 	}
 
 	if val, ok := RegisterInfo["Process ID"]; ok {
-		agent.Info.ProcessPID, err = strconv.Atoi(val.(string))
+		agent.Info.ProcessPID, err = strconv.Atoi(registerInfoString(val))
 		if err != nil {
 			logger.DebugError("Couldn't parse ProcessID integer from string: " + err.Error())
 			agent.Info.ProcessPID = 0
@@ -263,7 +277,7 @@ func RegisterInfoToInstance(Header Header, RegisterInfo map[string]any) *Agent {
 	}
 
 	if val, ok := RegisterInfo["Process Parent ID"]; ok {
-		agent.Info.ProcessPPID, err = strconv.Atoi(val.(string))
+		agent.Info.ProcessPPID, err = strconv.Atoi(registerInfoString(val))
 		if err != nil {
 			logger.DebugError("Couldn't parse ProcessPPID integer from string: " + err.Error())
 			agent.Info.ProcessPPID = 0
@@ -280,20 +294,23 @@ func RegisterInfoToInstance(Header Header, RegisterInfo map[string]any) *Agent {
 	// Updated OS Version handling
 	if val, ok := RegisterInfo["OS Version"]; ok {
 	    // Assuming val is a string representing the OS version, split it by '.' to get the version parts
-	    versionParts := strings.Split(val.(string), ".")
-	    OsVersion := make([]int, len(versionParts))
+	    versionParts := strings.Split(registerInfoString(val), ".")
+	    // getWindowsVersionString reads five numbers (major, minor, product type, service pack, build)
+	    OsVersion := make([]int, 5)
 	    for i, part := range versionParts {
-		OsVersion[i], _ = strconv.Atoi(part)
+		if i < len(OsVersion) {
+		    OsVersion[i], _ = strconv.Atoi(part)
+		}
 	    }
 	    agent.Info.OSVersion = getWindowsVersionString(OsVersion)
 	}
 
 	if val, ok := RegisterInfo["OS Build"]; ok {
-		agent.Info.OSBuild = val.(string)
+		agent.Info.OSBuild = registerInfoString(val)
 	}
 
 	if val, ok := RegisterInfo["OS Arch"]; ok {
-		agent.Info.OSArch = val.(string)
+		agent.Info.OSArch = registerInfoString(val)
 	}
 	
 	if val, ok := RegisterInfo["SleepDelay"]; ok {
